@@ -20,7 +20,7 @@ CLAIMED = {
         design="DESIGN.md §4 C13"),
     "C12": dict(
         technique="static analysis: index-role typing (active / global / input-box) of every subscript in FieldProps.cpp and FieldData.hpp, stride and coverage rules, call-site kind agreement, enumerator/keyword/arithmetic pairing tables (clang AST)",
-        text="Decides the structural necessary condition of 'the value in an active cell never depends on which other cells are inactive': containers are only subscripted with an index of their own role; block strides of multi-value arrays are the cell count of that role; storage addressed by global index is filled while visiting all cells of the box, not only the active ones; generic primitives are called with storage and index list of the same kind; keyword names, ScalarOperation enumerators and arithmetic are paired correctly (ADD/MULTIPLY/EQUALS/MINVALUE/MAXVALUE); record-driven handlers update the box before taking an index list. Not decided: the sequential semantics cell by cell (reference interpreter; runtime).",
+        text="Decides the structural necessary condition of 'the value in an active cell never depends on which other cells are inactive': containers are only subscripted with an index of their own role; block strides of multi-value arrays are the cell count of that role; storage addressed by global index is filled while visiting all cells of the box, not only the active ones; generic primitives are called with storage and index list of the same kind; keyword names, ScalarOperation enumerators and arithmetic are paired correctly (ADD/MULTIPLY/EQUALS/MINVALUE/MAXVALUE); record-driven handlers update the box before taking an index list. The OPERATE function table binds every name to the function of that name and each function returns the documented formula of R, X, alpha, beta. Not decided: the sequential semantics cell by cell (reference interpreter; runtime).",
         note="Trusted: the role table in rules/C12.py. Subscripts where only one side has a known role are counted, never flagged.",
         design="DESIGN.md §4 C12"),
     "C16": dict(
@@ -66,7 +66,7 @@ CLAIMED = {
         design="DESIGN.md §4 C18"),
     "C05": dict(
         technique="static analysis: writer/reader table agreement over the clang ASTs of Aggregate{Well,Connection,Group,MSW}Data.cpp, rst/{well,connection,group,segment}.cpp and LoadRestart.cpp (slot, unit measure, summary vector, record index), with numeric equivalence classes of the measures taken from the UnitSystem tables and an index-provenance analysis for the segment records",
-        text="Decides the agreement of the restart writer's and reader's tables for the per-well, per-connection, per-group and per-segment arrays: every slot a load-bearing reader consumes is assigned by the writer; the measure the reader converts with is the measure the writer converted with, or the measure of the summary vector stored there (multisets, up to measures that have identical factors in all four unit systems); fields kept in output units flow only into UDAValue updates; the summary vector restored from an X* slot is the one stored there (derived vectors from the slots their definition names); slot names agree with the stored mnemonic; ISEG/RSEG records are written and fetched at segmentNumber()-1; array names and element types the readers request are the ones RestartIO::save writes; integer encoders/decoders of well and group control modes, guide-rate targets and connection direction are inverse tables. NOT decided: value equality after a real save/load (precision, solution arrays, UDQ/ACTIONX state), agreement of well/group record order (loop position vs seqIndex(): a runtime invariant), and equivalence of the restarted schedule (Schedule::cmp).",
+        text="Decides the agreement of the restart writer's and reader's tables for the per-well, per-connection, per-group and per-segment arrays: every slot a load-bearing reader consumes is assigned by the writer; the measure the reader converts with is the measure the writer converted with, or the measure of the summary vector stored there (multisets, up to measures that have identical factors in all four unit systems); fields kept in output units flow only into UDAValue updates; the summary vector restored from an X* slot is the one stored there (derived vectors from the slots their definition names); slot names agree with the stored mnemonic; ISEG/RSEG records are written and fetched at segmentNumber()-1; array names and element types the readers request are the ones RestartIO::save writes; integer encoders/decoders of well and group control modes, guide-rate targets and connection direction are inverse tables; the ACTIONX run record (IACT/SACT items for max_run, run count +1/-1, min_wait, time of the last run relative to the start) is read from the items it was written to with the same measure; network and analytic/numeric aquifer arrays are included in the slot and unit rules, conversion chains being compared as signed products of unit factors in all four systems. NOT decided: value equality after a real save/load (precision, solution arrays, UDQ/ACTIONX state), agreement of well/group record order (loop position vs seqIndex(): a runtime invariant), and equivalence of the restarted schedule (Schedule::cmp).",
         note="Trusted: mnemonic->measure and slot-name->mnemonic grammars in rules/C05.py; tables/c05_deferred.json, c05_reader_only.json, c05_positional.json (one reason per entry). A reader field nobody uses is reported as information, not as a violation.",
         design="DESIGN.md §4 C05"),
     "C20": dict(
